@@ -26,7 +26,7 @@ def is50(msg: str) -> bool:
 
     # status bit 1, 12, 24, 35, 46
 
-    if common.wrongstatus(d, 1, 3, 11):
+    if common.wrongstatus(d, 1, 2, 11):
         return False
 
     if common.wrongstatus(d, 12, 13, 23):
